@@ -42,6 +42,22 @@ def stream(family, tier):
             decs = list(G.decorate(cl, heads, k=k))
             yield decs[0] if k % 2 == 0 else decs[1 + k % 3]
             k += 1
+    elif family in ("FC3", "FC3g"):
+        # query orders: all permutations of the derived atoms (thorough) / two of them (quick),
+        # plus one conjunction query
+        import itertools as _it
+
+        for cl, heads in G.fc_programs(guarded=(family == "FC3g")):
+            perms = list(_it.permutations(heads))
+            if tier == "quick":
+                perms = [perms[0], perms[-1]]
+            for perm in perms:
+                yield {"clauses": cl, "queries": [G.A(h) for h in perm], "evidence": []}
+            if len(heads) >= 2:
+                cl2 = cl + [G.rule(G.A("q"), [[True, G.A(heads[0])], [True, G.A(heads[-1])]])]
+                yield {"clauses": cl2, "queries": [G.A("q")], "evidence": []}
+                yield {"clauses": cl, "queries": [G.A(h) for h in heads], "evidence": [[G.A(heads[-1]), True, "pair"]]}
+            k += 1
     elif family.startswith("F2."):
         n = int(family[3:])
         for cl in G.f2_programs(n):
